@@ -78,7 +78,17 @@ EXPLANATION = (
     'trip counts (uniformity taint from mpi.rank() and the rank-local '
     'parameters of a frozen table, cleared by allreduce/allgather/bcast '
     'results; a function with collectives that is not in the table makes the '
-    'analysis incomplete); (D2) the rank that fills the broadcast buffer with '
+    'analysis incomplete - except private helpers: one that the front end '
+    'inlined into every caller is analysed there, one that is still called '
+    'gets its rank-local parameters from its call sites); the taint is '
+    'closed under in-place updates of local objects; an argument the table '
+    'declares replicated is never updated in place with a rank-divergent '
+    'value and the root of every rooted collective (also through '
+    'distribute_frame\'s owner_rank) is rank-uniform - both decided on the '
+    'definitions that reach the use, three-valued: divergent through pure '
+    'operations only = violation, through an opaque helper = incomplete; '
+    '(D2) a conditional expression defining the buffer counts as a branch; '
+    'the rank that fills the broadcast buffer with '
     'data[world_index] is the Bcast root, the others allocate a receive '
     'buffer, the Bcast is unconditional and an owner >= size() is rejected; '
     'reassembly roots equal the stripe offset, ragged reassembly cuts rank '
@@ -290,6 +300,46 @@ def closed_over(node, scope):
         if isinstance(x, ast.Name) and x.id not in scope and x.id not in _NEUTRAL and x.id not in _GLOBALS and x.id not in bound:
             return False
     return True
+
+
+def ifexp_arms(e, depth=3):
+    """The pure expression `e` as a decision list [(conds, value)] over the
+    conditional expressions it contains: `f(A if c else B).g` is
+    `f(A).g if c else f(B).g` (every context on the way is pure, so only the
+    order in which sub-expressions are evaluated changes).  conds is a list
+    of (test, polarity); an expression without a conditional - or an impure
+    one - is returned as the single arm ([], e)."""
+    if depth <= 0 or not _pure(e):
+        return [([], e)]
+    hit = None
+    for x in ast.walk(e):          # breadth first: outermost conditional first
+        if isinstance(x, (ast.ListComp, ast.SetComp, ast.DictComp, ast.GeneratorExp)):
+            return [([], e)]       # a conditional inside a comprehension is evaluated per element
+        if isinstance(x, ast.IfExp) and hit is None:
+            hit = x
+    if hit is None:
+        return [([], e)]
+
+    def repl(node, arm):
+        if node is hit:
+            return copy.deepcopy(arm)
+        if not isinstance(node, ast.AST) or isinstance(node, (ast.expr_context, ast.operator, ast.unaryop, ast.boolop, ast.cmpop)):
+            return node
+        new = type(node)()
+        for f in node._fields:
+            val = getattr(node, f, None)
+            if isinstance(val, list):
+                setattr(new, f, [repl(y, arm) for y in val])
+            else:
+                setattr(new, f, repl(val, arm) if isinstance(val, ast.AST) else val)
+        return ast.copy_location(new, node) if hasattr(node, 'lineno') else new
+    out = []
+    for arm, pol in ((hit.body, True), (hit.orelse, False)):
+        v = repl(e, arm)
+        ast.fix_missing_locations(v)
+        for conds, w in ifexp_arms(v, depth - 1):
+            out.append(([(hit.test, pol)] + conds, w))
+    return out
 
 
 def classify(node, patterns, scope):
@@ -508,132 +558,522 @@ def _ctrl_text(ctrl):
 def d1_matching(ck, spmd):
     rule = 'C14.D1.collective-matching'
     n_sites = 0
+    nu_of = {}
     for (rel, q), locs in LOCAL_PARAMS.items():
-        mod = ck.repo.mod(rel)
-        fn = mod.func(q)
-        ck.analysed(mod, fn)
-        from ..resolve import enclosing_class
-        cls = enclosing_class(mod, fn)
-        seeds = list(locs) + LOCAL_NAMES.get((rel, q), [])
-        nu = spmd.nonuniform_names(mod, fn, seeds)
-        # IfExp on mpi_mode: value uniform if the MPI arm is (handled by
-        # removing names whose only tainted definitions are serial arms)
-        for s in walk_local(fn):
-            if isinstance(s, ast.Assign) and isinstance(s.value, ast.IfExp) and is_mpi_mode_test(s.value.test):
-                if not spmd.expr_nonuniform(mod, fn, s.value.body, nu - set(target_names(s.targets[0])), cls):
-                    other = [x for x in walk_local(fn) if isinstance(x, (ast.Assign, ast.AugAssign)) and x is not s and
-                             set(target_names(x.targets[0] if isinstance(x, ast.Assign) else x.target)) & set(target_names(s.targets[0]))]
-                    if all(isinstance(x, ast.Assign) and isinstance(x.value, ast.IfExp) and is_mpi_mode_test(x.value.test) and
-                           not spmd.expr_nonuniform(mod, fn, x.value.body, nu - set(target_names(s.targets[0])), cls) for x in other):
-                        nu -= set(target_names(s.targets[0]))
-        helpers = {h.name: h for h in fn.body if isinstance(h, ast.FunctionDef)}
+        n_sites += _d1_function(ck, spmd, rule, rel, q, locs, nu_of)
+    ck.floor(rule, n_sites, 25, 'collective events (direct and through package functions)')
+    _d1_completeness(ck, spmd, rule, nu_of)
 
-        def events(node, _spmd=spmd, _mod=mod, _fn=fn, _helpers=helpers, _cls=cls):
-            """collective events of a block; a call of a helper defined
-            inside this function, or of a function of the same module that is
-            not in the uniformity table (an extracted helper; reported as
-            incomplete below), contributes the helper's own events."""
-            ev = _spmd.events(_mod, _fn, node)
-            for n0 in (node if isinstance(node, list) else [node]):
-                for c in ast.walk(n0):
-                    if not isinstance(c, ast.Call):
-                        continue
-                    if isinstance(c.func, ast.Name) and c.func.id in _helpers and not inside(_mod, c, _helpers[c.func.id]):
-                        ev = ev + _spmd.events(_mod, _fn, _helpers[c.func.id].body)
-                        continue
-                    t = _spmd.res.resolve_call(_mod, c, _cls)
-                    if t is not None and t.kind == 'func' and t.rel == _mod.rel and (t.rel, t.qual) not in LOCAL_PARAMS and \
-                            (t.rel, t.qual) not in WRAPPERS and _spmd.has_coll.get((t.rel, t.qual)) and (t.qual, '-') in ev:
-                        k = ev.index((t.qual, '-'))
-                        ev = ev[:k] + _spmd.events(_mod, _mod.functions[t.qual], _mod.functions[t.qual].body) + ev[k + 1:]
-            return ev
-        all_events = events(fn.body)
-        n_sites += len(all_events)
-        if not all_events:
-            ck.ok(rule, mod, fn, '%s: no collectives' % q, 'nothing to match')
-            continue
-        # (i) divergent if - in the function and in the helpers defined inside
-        # it (a helper parameter is rank-local iff some call passes a
-        # rank-local argument; closure variables keep their taint)
-        scan = [(n0, nu) for n0 in walk_local(fn)]
-        for h in helpers.values():
-            nu_h = set(nu)
-            for c in walk_local(fn):
-                if isinstance(c, ast.Call) and isinstance(c.func, ast.Name) and c.func.id == h.name:
-                    for pn, a in zip(params(h), c.args):
-                        if spmd.expr_nonuniform(mod, fn, a, nu, cls):
-                            nu_h.add(pn)
-                    for k in c.keywords:
-                        if k.arg and spmd.expr_nonuniform(mod, fn, k.value, nu, cls):
-                            nu_h.add(k.arg)
-            nu_h = spmd.nonuniform_names(mod, h, sorted(nu_h))
-            scan += [(n0, nu_h) for n0 in walk_local(h)]
-        for node, nun in scan:
-            if isinstance(node, ast.If):
-                div = spmd.expr_nonuniform(mod, fn, node.test, nun, cls)
+
+def _d1_function(ck, spmd, rule, rel, q, locs, nu_of):
+    """Collective matching inside one function whose rank-local parameters
+    are `locs`; returns the number of collective events found.  The taint set
+    computed for it is left in nu_of[(rel, q)]."""
+    mod = ck.repo.mod(rel)
+    fn = mod.func(q)
+    ck.analysed(mod, fn)
+    from ..resolve import enclosing_class
+    cls = enclosing_class(mod, fn)
+    seeds = list(locs) + LOCAL_NAMES.get((rel, q), [])
+    nu = spmd.nonuniform_names(mod, fn, seeds)
+    nu, divergent_updates = _mutation_taint(spmd, mod, fn, cls, seeds, nu)
+    # IfExp on mpi_mode: value uniform if the MPI arm is (handled by
+    # removing names whose only tainted definitions are serial arms)
+    for s in walk_local(fn):
+        if isinstance(s, ast.Assign) and isinstance(s.value, ast.IfExp) and is_mpi_mode_test(s.value.test):
+            if not spmd.expr_nonuniform(mod, fn, s.value.body, nu - set(target_names(s.targets[0])), cls):
+                other = [x for x in walk_local(fn) if isinstance(x, (ast.Assign, ast.AugAssign)) and x is not s and
+                         set(target_names(x.targets[0] if isinstance(x, ast.Assign) else x.target)) & set(target_names(s.targets[0]))]
+                if all(isinstance(x, ast.Assign) and isinstance(x.value, ast.IfExp) and is_mpi_mode_test(x.value.test) and
+                       not spmd.expr_nonuniform(mod, fn, x.value.body, nu - set(target_names(s.targets[0])), cls) for x in other):
+                    nu -= set(target_names(s.targets[0]))
+    helpers = {h.name: h for h in fn.body if isinstance(h, ast.FunctionDef)}
+
+    def events(node, _spmd=spmd, _mod=mod, _fn=fn, _helpers=helpers, _cls=cls):
+        """collective events of a block; a call of a helper defined
+        inside this function, or of a function of the same module that is
+        not in the uniformity table (an extracted helper; reported as
+        incomplete below), contributes the helper's own events."""
+        ev = _spmd.events(_mod, _fn, node)
+        for n0 in (node if isinstance(node, list) else [node]):
+            for c in ast.walk(n0):
+                if not isinstance(c, ast.Call):
+                    continue
+                if isinstance(c.func, ast.Name) and c.func.id in _helpers and not inside(_mod, c, _helpers[c.func.id]):
+                    ev = ev + _spmd.events(_mod, _fn, _helpers[c.func.id].body)
+                    continue
+                t = _spmd.res.resolve_call(_mod, c, _cls)
+                if t is not None and t.kind == 'func' and t.rel == _mod.rel and (t.rel, t.qual) not in LOCAL_PARAMS and \
+                        (t.rel, t.qual) not in WRAPPERS and _spmd.has_coll.get((t.rel, t.qual)) and (t.qual, '-') in ev:
+                    k = ev.index((t.qual, '-'))
+                    ev = ev[:k] + _spmd.events(_mod, _mod.functions[t.qual], _mod.functions[t.qual].body) + ev[k + 1:]
+        return ev
+    all_events = events(fn.body)
+    nu_of[(rel, q)] = (nu, cls)
+    if not all_events:
+        ck.ok(rule, mod, fn, '%s: no collectives' % q, 'nothing to match')
+        return 0
+    _d1_replicated_state(ck, rule + '.replicated-state', mod, fn, q, divergent_updates)
+    _d1_roots(ck, spmd, rule + '.roots', mod, fn, q, cls, nu, seeds)
+    # (i) divergent if - in the function and in the helpers defined inside
+    # it (a helper parameter is rank-local iff some call passes a
+    # rank-local argument; closure variables keep their taint)
+    scan = [(n0, nu) for n0 in walk_local(fn)]
+    for h in helpers.values():
+        nu_h = set(nu)
+        for c in walk_local(fn):
+            if isinstance(c, ast.Call) and isinstance(c.func, ast.Name) and c.func.id == h.name:
+                for pn, a in zip(params(h), c.args):
+                    if spmd.expr_nonuniform(mod, fn, a, nu, cls):
+                        nu_h.add(pn)
+                for k in c.keywords:
+                    if k.arg and spmd.expr_nonuniform(mod, fn, k.value, nu, cls):
+                        nu_h.add(k.arg)
+        nu_h = spmd.nonuniform_names(mod, h, sorted(nu_h))
+        scan += [(n0, nu_h) for n0 in walk_local(h)]
+    for node, nun in scan:
+        if isinstance(node, ast.If):
+            div = spmd.expr_nonuniform(mod, fn, node.test, nun, cls)
+            eb = events(node.body)
+            ee = events(node.orelse)
+            if not eb and not ee:
+                continue
+            if not div:
+                ck.ok(rule, mod, node, 'if %s: collectives %s / %s' % (u(node.test)[:60], eb, ee), 'rank-uniform condition')
+                continue
+            ck.check(eb == ee, rule, mod, node, q, 'if %s: %s else: %s' % (u(node.test)[:80], eb, ee),
+                     'rank-divergent branch, but both arms issue the same collective sequence with the same root',
+                     'a collective is issued under the rank-divergent condition `%s` and the other arm does not issue the same '
+                     'sequence (%s vs %s): ranks that take different arms wait for each other forever (deadlock) or '
+                     'exchange mismatched messages' % (u(node.test)[:80], eb, ee))
+        if isinstance(node, ast.IfExp):
+            if spmd.expr_nonuniform(mod, fn, node.test, nun, cls):
                 eb = events(node.body)
                 ee = events(node.orelse)
-                if not eb and not ee:
-                    continue
-                if not div:
-                    ck.ok(rule, mod, node, 'if %s: collectives %s / %s' % (u(node.test)[:60], eb, ee), 'rank-uniform condition')
-                    continue
-                ck.check(eb == ee, rule, mod, node, q, 'if %s: %s else: %s' % (u(node.test)[:80], eb, ee),
-                         'rank-divergent branch, but both arms issue the same collective sequence with the same root',
-                         'a collective is issued under the rank-divergent condition `%s` and the other arm does not issue the same '
-                         'sequence (%s vs %s): ranks that take different arms wait for each other forever (deadlock) or '
-                         'exchange mismatched messages' % (u(node.test)[:80], eb, ee))
-            if isinstance(node, ast.IfExp):
-                if spmd.expr_nonuniform(mod, fn, node.test, nun, cls):
-                    eb = events(node.body)
-                    ee = events(node.orelse)
-                    if eb or ee:
-                        ck.check(eb == ee, rule, mod, node, q, u(node)[:120], 'same collectives in both arms',
-                                 'collective inside one arm of a rank-divergent conditional expression')
-            if isinstance(node, (ast.For, ast.While)):
-                ev = events(node.body)
-                if not ev:
-                    continue
-                ctrl = node.iter if isinstance(node, ast.For) else node.test
-                div = spmd.expr_nonuniform(mod, fn, ctrl, nun, cls)
-                ck.check(not div, rule + '.loops', mod, node, q, '%s %s: collectives %s' % ('for' if isinstance(node, ast.For) else 'while', _ctrl_text(ctrl)[:80], ev[:4]),
-                         'loop containing collectives has a rank-uniform trip count',
-                         'the loop controlled by `%s` contains collectives %s but its trip count can differ between ranks: '
-                         'some ranks leave the loop while others still wait in a collective' % (u(ctrl)[:80], ev[:3]))
-        # (ii) early return under divergent condition before a later collective:
-        # the ranks that do NOT return go on (through the other branch of the
-        # divergent test) to a collective outside that if-statement
-        fi = finfo(mod, fn)
+                if eb or ee:
+                    ck.check(eb == ee, rule, mod, node, q, u(node)[:120], 'same collectives in both arms',
+                             'collective inside one arm of a rank-divergent conditional expression')
+        if isinstance(node, (ast.For, ast.While)):
+            ev = events(node.body)
+            if not ev:
+                continue
+            ctrl = node.iter if isinstance(node, ast.For) else node.test
+            div = spmd.expr_nonuniform(mod, fn, ctrl, nun, cls)
+            ck.check(not div, rule + '.loops', mod, node, q, '%s %s: collectives %s' % ('for' if isinstance(node, ast.For) else 'while', _ctrl_text(ctrl)[:80], ev[:4]),
+                     'loop containing collectives has a rank-uniform trip count',
+                     'the loop controlled by `%s` contains collectives %s but its trip count can differ between ranks: '
+                     'some ranks leave the loop while others still wait in a collective' % (u(ctrl)[:80], ev[:3]))
+    # (ii) early return under divergent condition before a later collective:
+    # the ranks that do NOT return go on (through the other branch of the
+    # divergent test) to a collective outside that if-statement
+    fi = finfo(mod, fn)
 
-        def has_coll(st, _mod=mod, _cls=cls):
-            for e in header_exprs(st):
-                for c in walk_expr(e):
-                    if isinstance(c, ast.Call):
-                        if collective_name(c):
-                            return True
-                        t = spmd.res.resolve_call(_mod, c, _cls)
-                        if t is not None and t.kind == 'func' and spmd.has_coll.get((t.rel, t.qual)):
-                            return True
+    def has_coll(st, _mod=mod, _cls=cls):
+        for e in header_exprs(st):
+            for c in walk_expr(e):
+                if isinstance(c, ast.Call):
+                    if collective_name(c):
+                        return True
+                    t = spmd.res.resolve_call(_mod, c, _cls)
+                    if t is not None and t.kind == 'func' and spmd.has_coll.get((t.rel, t.qual)):
+                        return True
+        return False
+    for r in [x for x in walk_local(fn) if isinstance(x, ast.Return)]:
+        for a in fi.cfg.dom.get(r, ()):
+            if not (isinstance(a, Assume) and spmd.expr_nonuniform(mod, fn, a.test, nu, cls)):
+                continue
+            opp = [x for x in fi.cfg.succ.get(a.owner, []) if isinstance(x, Assume) and x is not a]
+            later = [st for st in fi.cfg.nodes if st not in (ENTRY, EXIT) and not isinstance(st, Assume) and not inside(mod, st, a.owner)
+                     and has_coll(st) and any(fi.cfg.reachable(o, st) for o in opp)]
+            ck.check(not later, rule + '.early-return', mod, r, q, u(r)[:80],
+                     'no collective follows this rank-divergent return',
+                     'a rank can return here (under `%s`) while the others go on to the collective at L%s' % (u(a.test)[:60], later[0].lineno if later else '?'))
+    return len(all_events)
+
+
+_GROWING = {'append', 'extend', 'insert', 'update', 'add', 'setdefault', 'fill', 'put', 'itemset', 'appendleft', 'extendleft'}
+
+
+def _inplace_updates(fi, fn):
+    """In-place updates of the object bound to a plain name: `X[i] = v`,
+    `X[i] op= v`, `X.a = v`, `X.append(v)` ...  Yields (statement, X,
+    [expressions whose value ends up in X])."""
+    from ..core import base_name
+    for n in walk_local(fn):
+        if isinstance(n, (ast.Assign, ast.AugAssign)):
+            for t in (n.targets if isinstance(n, ast.Assign) else [n.target]):
+                for t1 in (t.elts if isinstance(t, (ast.Tuple, ast.List)) else [t]):
+                    if isinstance(t1, (ast.Subscript, ast.Attribute)) and base_name(t1) is not None:
+                        idx = [x.slice for x in ast.walk(t1) if isinstance(x, ast.Subscript)]
+                        yield n, base_name(t1), [n.value] + idx
+        elif isinstance(n, ast.Call) and isinstance(n.func, ast.Attribute) and n.func.attr in _GROWING and isinstance(n.func.value, ast.Name):
+            st = fi.stmt(n)
+            if st is not None and (n.args or n.keywords):
+                yield st, n.func.value.id, list(n.args) + [k.value for k in n.keywords]
+
+
+def _sure_leaf(e, sure, bound):
+    """a rank-divergent leaf (mpi.rank() or a name of `sure`) reaches the
+    value of `e` through pure numpy / builtin operations only: no helper or
+    method in between that could make the value uniform again."""
+    def walk(x):
+        if isinstance(x, ast.Call):
+            cn = call_name(x) or ''
+            if cn == 'mpi.rank' or cn.endswith('.Get_rank'):
+                return True
+            if collective_name(x) or cn in ('hasattr', 'callable', 'isinstance'):
+                return False
+            if not _pure(ast.Call(func=x.func, args=[], keywords=[])):
+                return False
+        if isinstance(x, ast.Compare) and len(x.ops) == 1 and isinstance(x.ops[0], (ast.Is, ast.IsNot)) and const_value(x.comparators[0]) is None and \
+                isinstance(x.comparators[0], ast.Constant):
             return False
-        for r in [x for x in walk_local(fn) if isinstance(x, ast.Return)]:
-            for a in fi.cfg.dom.get(r, ()):
-                if not (isinstance(a, Assume) and spmd.expr_nonuniform(mod, fn, a.test, nu, cls)):
+        if isinstance(x, ast.Name):
+            return x.id in sure and x.id not in bound
+        return any(walk(c) for c in ast.iter_child_nodes(x))
+    return walk(e)
+
+
+def _nonuniform_here(spmd, mod, fn, fi, cls, e, here, nu, seeds, _stack=frozenset(), why=None):
+    """Flow-sensitive, three-valued refinement of SPMD.expr_nonuniform for
+    the expression `e` evaluated at statement `here`: a name of the
+    flow-insensitive taint set `nu` counts only if one of the definitions
+    that REACH this use is rank-divergent (`idx = 0` / `idx =
+    gathered[owner]` are uniform although some other statement binds the same
+    name to a local value).  Returns 0 (uniform), 2 (divergent: a rank-local
+    parameter / mpi.rank() reaches the value through pure operations only) or
+    1 (possibly divergent: the taint passes through a helper, a method or a
+    binding this analysis cannot see through).  `why` (a list) receives the
+    chain of divergent definitions, source first."""
+    why = why if why is not None else []
+    bound = _comp_bound(e)
+    really, sure = set(), set()
+    for x in ast.walk(e):
+        if not (isinstance(x, ast.Name) and isinstance(x.ctx, ast.Load) and x.id in nu) or x.id in really:
+            continue
+        if x.id in bound:
+            really.add(x.id)
+            continue
+        level, note = 0, None
+        for site in fi.rd.defs_at(here, x.id):
+            if level == 2:
+                break
+            if site == 'UNBOUND':
+                continue
+            if site == 'PARAM' or not hasattr(site, 'lineno'):
+                if x.id in seeds:
+                    level, note = 2, '`%s` is a rank-local parameter' % x.id
+                continue
+            if x.id in seeds and x.id not in params(fn):
+                level, note = 2, '`%s` is rank-local' % x.id       # declared rank-local by name
+                continue
+            key = (id(site), x.id)
+            if key in _stack:
+                continue
+            v = fi.def_value(site, x.id)
+            if v is None and isinstance(site, ast.Assign):
+                v = site.value          # component of an unpacked value
+            extra = []
+            if v is None and isinstance(site, ast.AugAssign):
+                v, extra = site.value, [site.target]
+            if v is None and isinstance(site, (ast.For, ast.AsyncFor)):
+                v = site.iter
+            if v is None:
+                level = max(level, 1)   # with-as, import, except-as, ...: keep the flow-insensitive answer
+                continue
+            sub = []
+            lv = max(_nonuniform_here(spmd, mod, fn, fi, cls, y, site, nu, seeds, _stack | {key}, sub) for y in [v] + extra)
+            if lv and isinstance(v, ast.Call) and not extra:
+                # result of a private helper outside the uniformity table: look at what it returns
+                us = unpack_source(fi, x.id, here) if fi.def_value(site, x.id) is None else None
+                hl = _helper_result_level(spmd, mod, fn, fi, cls, v, site, nu, seeds, _stack | {key}, us[1] if us is not None and us[2] is site else None, sub)
+                if hl is not None:
+                    lv = hl
+            if lv > level:
+                level, note = lv, sub + ['`%s`' % u(site).split('\n')[0][:100]]
+        if level:
+            really.add(x.id)
+            if level == 2:
+                sure.add(x.id)
+            for w in ([note] if isinstance(note, str) else (note or [])):
+                if w not in why:
+                    why.append(w)
+    if not spmd.expr_nonuniform(mod, fn, e, really, cls):
+        return 0
+    return 2 if _sure_leaf(e, sure, bound) else 1
+
+
+def _helper_result_level(spmd, mod, fn, fi, cls, call, here, nu, seeds, stack, component, why):
+    """Uniformity level (0 / 1 / 2, see _nonuniform_here) of the value - or,
+    with `component`, of that element of the result tuple - returned by a
+    call of a private package function that is not in the uniformity table
+    (an extracted helper): its parameters are rank-local where this call
+    passes a rank-divergent argument, and the level is the worst over its
+    return statements.  None if the callee is not such a helper."""
+    t = spmd.res.resolve_call(mod, call, cls)
+    if t is None or t.kind != 'func' or (t.rel, t.qual) in LOCAL_PARAMS or (t.rel, t.qual) in WRAPPERS or '<locals>' in t.qual:
+        return None
+    bare = t.qual.split('.')[-1]
+    if not bare.startswith('_') or bare.startswith('__') or ('helper', t.rel, t.qual) in stack or len(stack) > 12:
+        return None
+    m2 = spmd.repo.modules.get(t.rel)
+    f2 = m2.functions.get(t.qual) if m2 is not None else None
+    if f2 is None or f2.args.vararg is not None or f2.args.kwarg is not None or f2.decorator_list or \
+            any(isinstance(a, ast.Starred) for a in call.args) or any(k.arg is None for k in call.keywords) or \
+            any(isinstance(n, (ast.Yield, ast.YieldFrom)) for n in walk_local(f2)):
+        return None
+    from ..resolve import enclosing_class
+    ps = params(f2)
+    if ps and ps[0] == 'self' and '.' in t.qual:
+        ps = ps[1:]
+    seeds2 = sorted({pn for pn, a in list(zip(ps, call.args)) + [(k.arg, k.value) for k in call.keywords]
+                     if _nonuniform_here(spmd, mod, fn, fi, cls, a, here, nu, seeds, stack)})
+    cls2 = enclosing_class(m2, f2)
+    fi2 = finfo(m2, f2)
+    nu2 = spmd.nonuniform_names(m2, f2, seeds2)
+    rets = returns_of(f2)
+    if not rets:
+        return 0
+    level = 0
+    for r in rets:
+        v = r.value
+        if v is None:
+            continue
+        if component is not None:
+            if not (isinstance(v, ast.Tuple) and component < len(v.elts) and not any(isinstance(x, ast.Starred) for x in v.elts)):
+                v = r.value         # not a tuple display: the whole value decides
+            else:
+                v = v.elts[component]
+        sub = []
+        lv = _nonuniform_here(spmd, m2, f2, fi2, cls2, v, r, nu2, seeds2, stack | {('helper', t.rel, t.qual)}, sub)
+        if lv > level:
+            level = lv
+            why[:] = sub + ['`%s` in %s' % (u(r).split('\n')[0][:80], t.qual)]
+    return level
+
+
+def _mutation_taint(spmd, mod, fn, cls, seeds, nu):
+    """Closure of the uniformity taint under in-place updates: a local
+    object that receives a rank-divergent value (`buf[i] = <local>`,
+    `lst.append(<local>)`) is rank-divergent from then on.  A parameter that
+    the uniformity table declares REPLICATED is the caller's object: updating
+    it with a divergent value is not a taint but a breach of the convention;
+    those updates are returned as [(statement, name, (expression, chain of
+    divergent definitions, 2 = divergent / 1 = possibly divergent))] (and the
+    uniform ones as (statement, name, None))."""
+    fi = finfo(mod, fn)
+    # (*args / **kwargs are fresh objects of this call, not the caller's)
+    ps = set(params(fn)) - {a.arg for a in (fn.args.vararg, fn.args.kwarg) if a is not None}
+    breaches = []
+    for _ in range(6):
+        changed = False
+        breaches = []
+        for st, X, exprs in _inplace_updates(fi, fn):
+            if X in nu:
+                continue
+            replicated = X in ps and X not in seeds and 'PARAM' in fi.rd.defs_at(st, X)
+            why = []
+            div = sorted(((_nonuniform_here(spmd, mod, fn, fi, cls, e, st, nu, seeds, why=why), i) for i, e in enumerate(exprs)), reverse=True)
+            div = [(exprs[i], lv) for lv, i in div if lv]
+            if replicated:
+                breaches.append((st, X, (div[0][0], why, div[0][1]) if div else None))
+            elif div:
+                nu = spmd.nonuniform_names(mod, fn, sorted(set(nu) | {X}))
+                changed = True
+        if not changed:
+            break
+    return nu, breaches
+
+
+def _d1_replicated_state(ck, rule, mod, fn, q, updates):
+    """A function that communicates (MPI-mode code) must keep the arguments
+    that are replicated on every rank replicated: the (owner, index) list of
+    centres, the list of centre coordinates, ... are read by every rank as
+    global facts."""
+    seen = set()
+    for st, X, e in updates:
+        if (id(st), X) in seen:
+            continue
+        seen.add((id(st), X))
+        v = 'match' if e is None else ('near', 1, None) if e[2] == 2 else ('far', 1, None)
+        ck.decide(v, rule, mod, st, q, u(st)[:160],
+                  'the replicated argument `%s` is updated in place with a rank-uniform value' % X,
+                  '`%s` is replicated on every rank (SPMD convention of %s), but this statement updates it in place with the rank-LOCAL value `%s` '
+                  '(%s; no collective in between): afterwards the ranks disagree on `%s`, e.g. on the '
+                  '(owner, index) pairs naming the centres' % (X, q, u(e[0])[:100] if e is not None else '', ' -> '.join(e[1][:4]) if e is not None else '', X))
+
+
+def _root_of(c):
+    """the root argument of a rooted collective call (None: default root 0 /
+    not a rooted collective)."""
+    cn = collective_name(c)
+    if cn in ('bcast', 'Bcast', 'gather', 'Gather', 'scatter', 'Scatter'):
+        return arg(c, 1, 'root')
+    if cn in ('reduce', 'Reduce'):
+        return arg(c, 2, 'root')
+    return None
+
+
+def _root_params(ck, spmd):
+    """{(rel, qual): parameter names whose value becomes the root of a
+    collective} for the functions of the uniformity table: directly (the
+    expanded root expression mentions the parameter) or by being passed on to
+    such a parameter of another table function."""
+    memo = getattr(spmd, '_c14_root_params', None)
+    if memo is not None:
+        return memo
+    from ..resolve import enclosing_class
+    out = {k: set() for k in LOCAL_PARAMS}
+    changed = True
+    while changed:
+        changed = False
+        for (rel, q) in LOCAL_PARAMS:
+            mod = ck.repo.mod(rel)
+            fn = mod.func(q)
+            fi = finfo(mod, fn)
+            ps = set(params(fn))
+            cls = enclosing_class(mod, fn)
+            for c in walk_local(fn):
+                if not isinstance(c, ast.Call):
                     continue
-                opp = [x for x in fi.cfg.succ.get(a.owner, []) if isinstance(x, Assume) and x is not a]
-                later = [st for st in fi.cfg.nodes if st not in (ENTRY, EXIT) and not isinstance(st, Assume) and not inside(mod, st, a.owner)
-                         and has_coll(st) and any(fi.cfg.reachable(o, st) for o in opp)]
-                ck.check(not later, rule + '.early-return', mod, r, q, u(r)[:80],
-                         'no collective follows this rank-divergent return',
-                         'a rank can return here (under `%s`) while the others go on to the collective at L%s' % (u(a.test)[:60], later[0].lineno if later else '?'))
-    ck.floor(rule, n_sites, 25, 'collective events (direct and through package functions)')
-    # completeness of the uniformity table: a function that contains collectives
-    # (directly or through package functions) and is neither analysed above nor a
-    # known thin wrapper has not been checked
-    for (rel, q), has in sorted(spmd.has_coll.items()):
-        if has and (rel, q) not in LOCAL_PARAMS and (rel, q) not in WRAPPERS and rel in (OPS, IO, KC, KM, HY, CU, APP) and \
-                not ('.<locals>.' in q and q.count('.<locals>.') == 1 and (rel, q.split('.<locals>.')[0]) in LOCAL_PARAMS):
-            ck.missing(rule, 'function %s::%s issues collectives but is not in the uniformity table (new or extracted helper): its rank-local '
-                             'parameters are unknown, collective matching inside it is not decided' % (rel, q))
+                st = fi.stmt(c)
+                if st is None:
+                    continue
+                roots = []
+                if collective_name(c):
+                    roots = [_root_of(c)]
+                else:
+                    t = spmd.res.resolve_call(mod, c, cls)
+                    if t is not None and t.kind == 'func' and out.get((t.rel, t.qual)):
+                        roots = [a for pn, a in _bind_args(ck.repo.mod(t.rel).func(t.qual), t.qual, c) if pn in out[(t.rel, t.qual)]]
+                for r in roots:
+                    if r is None:
+                        continue
+                    for nm in names_loaded(xn(fi, r, st)) & ps:
+                        if fi.rd.defs_at(st, nm) == {'PARAM'} and nm not in out[(rel, q)]:
+                            out[(rel, q)].add(nm)
+                            changed = True
+    spmd._c14_root_params = out
+    return out
+
+
+def _bind_args(f2, qual, call):
+    """[(parameter name, argument expression)] of a call (no star-args)."""
+    ps = params(f2)
+    if ps and ps[0] in ('self', 'cls') and '.' in qual:
+        ps = ps[1:]
+    if any(isinstance(a, ast.Starred) for a in call.args):
+        return [(k.arg, k.value) for k in call.keywords if k.arg]
+    return list(zip(ps, call.args)) + [(k.arg, k.value) for k in call.keywords if k.arg]
+
+
+def _d1_roots(ck, spmd, rule, mod, fn, q, cls, nu, seeds):
+    """Every rank must name the SAME root in a rooted collective (a Bcast
+    whose root differs between ranks never completes, or delivers the wrong
+    rank's buffer): the root expression of each direct collective, and each
+    argument that a table function turns into a root (distribute_frame's
+    owner_rank), is rank-uniform."""
+    fi = finfo(mod, fn)
+    rp = _root_params(ck, spmd)
+    for c in walk_local(fn):
+        if not isinstance(c, ast.Call):
+            continue
+        st = fi.stmt(c)
+        if st is None:
+            continue
+        if collective_name(c):
+            roots = [('root', _root_of(c))]
+        else:
+            t = spmd.res.resolve_call(mod, c, cls)
+            if t is None or t.kind != 'func' or not rp.get((t.rel, t.qual)):
+                continue
+            roots = [(pn, a) for pn, a in _bind_args(ck.repo.mod(t.rel).func(t.qual), t.qual, c) if pn in rp[(t.rel, t.qual)]]
+        for pn, r in roots:
+            if r is None:
+                continue
+            why = []
+            lv = _nonuniform_here(spmd, mod, fn, fi, cls, r, st, nu, seeds, why=why)
+            v = 'match' if not lv else ('near', 1, None) if lv == 2 else ('far', 1, None)
+            ck.decide(v, rule, mod, c, q, '%s=%s in %s' % (pn, u(r), u(c)[:120]), 'the root of the collective is the same on every rank',
+                      'the root `%s` of this collective differs between ranks (%s; no collective in between): the ranks do not agree on who '
+                      'sends, the broadcast cannot complete' % (u(r), ' -> '.join(why[:4])))
+
+
+def _d1_completeness(ck, spmd, rule, nu_of):
+    """Completeness of the uniformity table: a function that contains
+    collectives (directly or through package functions) and is neither in the
+    table nor a known thin wrapper.  A private helper that the front end
+    inlined into every caller has been analysed there, in the caller's
+    context.  A private helper that is still called has its rank-local
+    parameters DERIVED from the call sites (a parameter is rank-local iff
+    some call passes a rank-divergent argument) - every call site is visible
+    because the name is private and never used except as a callee.
+    Everything else has not been checked: incomplete."""
+    from ..resolve import enclosing_class
+    inl = getattr(ck.repo, 'inlined', {}) or {}
+    pending = [(rel, q) for (rel, q), has in sorted(spmd.has_coll.items())
+               if has and (rel, q) not in LOCAL_PARAMS and (rel, q) not in WRAPPERS and rel in (OPS, IO, KC, KM, HY, CU, APP) and
+               not ('.<locals>.' in q and q.count('.<locals>.') == 1 and (rel, q.split('.<locals>.')[0]) in LOCAL_PARAMS)]
+
+    def uses(rel, q):
+        """(call sites [(caller rel, caller qual, call)], other references)"""
+        bare = q.split('.')[-1]
+        calls, refs = [], 0
+        for rel2 in (OPS, IO, KC, KM, HY, CU, APP):
+            m2 = ck.repo.mod(rel2)
+            for q2, f2 in m2.functions.items():
+                cls2 = enclosing_class(m2, f2)
+                funcs = set()
+                for c in walk_local(f2):
+                    if isinstance(c, ast.Call):
+                        t = spmd.res.resolve_call(m2, c, cls2)
+                        if t is not None and t.kind == 'func' and (t.rel, t.qual) == (rel, q):
+                            calls.append((rel2, q2, c))
+                            funcs.add(id(c.func))
+                for c in walk_local(f2):
+                    if isinstance(c, (ast.Name, ast.Attribute)) and id(c) not in funcs and isinstance(c.ctx, ast.Load) and \
+                            (c.id if isinstance(c, ast.Name) else c.attr) == bare and rel2 == rel:
+                        refs += 1
+        return calls, refs
+    progress = True
+    while pending and progress:
+        progress = False
+        for rel, q in list(pending):
+            bare = q.split('.')[-1]
+            private = bare.startswith('_') and not bare.startswith('__')
+            calls, refs = uses(rel, q)
+            was_inlined = any(bare in hs for hs in inl.get(rel, {}).values())
+            mod = ck.repo.mod(rel)
+            if private and was_inlined and not calls and not refs:
+                pending.remove((rel, q))
+                progress = True
+                ck.ok(rule, mod, mod.func(q), '%s: extracted helper, inlined into every caller' % q,
+                      'its collectives were matched inside %s' % ', '.join(sorted(c for c, hs in inl.get(rel, {}).items() if bare in hs)))
+                continue
+            if not (private and calls and not refs and all((r2, q2) in nu_of for r2, q2, _ in calls)):
+                continue
+            fn = mod.func(q)
+            if fn.args.vararg is not None or fn.args.kwarg is not None or any(isinstance(a, ast.Starred) for _, _, c in calls for a in c.args) or \
+                    any(k.arg is None for _, _, c in calls for k in c.keywords):
+                continue
+            ps = params(fn)
+            if ps and ps[0] == 'self' and '.' in q:
+                ps = ps[1:]
+            locs = set()
+            for r2, q2, c in calls:
+                nu2, cls2 = nu_of[(r2, q2)]
+                m2 = ck.repo.mod(r2)
+                for pn, a in list(zip(ps, c.args)) + [(k.arg, k.value) for k in c.keywords]:
+                    if spmd.expr_nonuniform(m2, m2.func(q2), a, nu2, cls2):
+                        locs.add(pn)
+            pending.remove((rel, q))
+            progress = True
+            ck.ok(rule, mod, fn, '%s: private helper outside the uniformity table' % q,
+                  'rank-local parameters derived from its %d call site(s): %s' % (len(calls), sorted(locs)))
+            _d1_function(ck, spmd, rule, rel, q, sorted(locs), nu_of)
+    for rel, q in pending:
+        ck.missing(rule, 'function %s::%s issues collectives but is not in the uniformity table (new or extracted helper): its rank-local '
+                         'parameters are unknown, collective matching inside it is not decided' % (rel, q))
 
 
 def _decide(ck, v, rule, mod, node, fn_name, construct, ok, bad):
@@ -657,6 +1097,67 @@ def d2_roots(ck):
         _d2_distribute(ck, rule, mod, fn, fi, F)
     _d2_assemble(ck, rule + '.reassembly', mod)
     _d2_assemble_ragged(ck, rule + '.reassembly', mod)
+
+
+def _d2_fill(ck, rule, mod, fi, F, site, val, atoms, is_arm, data, widx, owner, is_param):
+    """One definition of the broadcast buffer (or one arm of a conditional
+    expression defining it): `val` is its expanded value, `atoms` the path
+    condition.  Returns 1 if it is a fill on the owner side."""
+    side = None
+    other = None
+    for c, own in atoms:
+        if not isinstance(c, Cmp):
+            continue
+        l, r = xt(fi, c.lhs, own), xt(fi, c.rhs, own)
+        if 'mpi.rank()' not in (l, r):
+            continue
+        o = c.rhs if l == 'mpi.rank()' else c.lhs
+        other = (o, own, c)
+        if xt(fi, o, own) == owner and is_param(owner, own):
+            side = {'==': 'owner', '!=': 'receiver'}.get(c.rel, 'unknown')
+        else:
+            side = 'foreign'
+    xyz = [pol for c, own in atoms if isinstance(c, tuple) and c[0] == 'expr' and xt(fi, c[1], own) in ("hasattr(%s, 'xyz')" % data,) for pol in [c[2]]]
+    when = ' and '.join(repr(c) if isinstance(c, Cmp) else ('' if c[2] else 'not ') + u(c[1]) for c, _ in atoms) or 'always'
+    desc = '%s  [when %s]' % (u(site) if not is_arm else '%s = %s' % (u(site.targets[0]) if isinstance(site, ast.Assign) else '<buffer>', u(val)), when)
+    send = ['%s[%s]' % (data, widx), '%s[%s].xyz' % (data, widx), '%s[%s].copy()' % (data, widx), '%s[%s].xyz.copy()' % (data, widx),
+            'np.ascontiguousarray(%s[%s])' % (data, widx), 'np.ascontiguousarray(%s[%s].xyz)' % (data, widx)]
+    recv = [f.replace('D', data) for f in (
+        'np.empty_like(D[0])', 'np.empty_like(D[0].xyz)', 'np.zeros_like(D[0])', 'np.zeros_like(D[0].xyz)',
+        'np.empty(D[0].shape, dtype=D.dtype)', 'np.empty(D.shape[1:], dtype=D.dtype)', 'np.empty(D[0].xyz.shape, dtype=D[0].xyz.dtype)')]
+    is_alloc = isinstance(val, ast.Call) and (call_name(val) or '') in ('np.empty_like', 'np.zeros_like', 'np.empty', 'np.zeros')
+    if side == 'foreign':
+        o, own, c = other
+        v2 = ('near', 1, 'mpi.rank() == %s' % owner) if closed_over(xn(fi, o, own), {data, widx, owner}) else ('far', 1, None)
+        _decide(ck, v2, rule, mod, site, F, desc, '', 'the buffer is filled under the rank test `%r`, but the Bcast root is `%s`: '
+                'the rank that fills the buffer must be the broadcast root' % (c, owner))
+        return 0
+    if side == 'unknown':
+        ck.missing(rule, 'rank test of a buffer fill not understood: %s' % desc[:160])
+        return 0
+    if side is None:
+        if is_alloc:
+            side = 'receiver'       # default receive buffer, overwritten on the owner
+        elif _classify(val, send[:2])[0] == 'match':
+            ck.bad(rule, mod, site, F, desc, 'the buffer is bound to %s[%s] on EVERY rank (no `mpi.rank() == %s` guard): non-owner ranks index their own data '
+                   'with the owner\'s position and the Bcast then overwrites their local frame in place' % (data, widx, owner))
+            return 0
+        else:
+            ck.missing(rule, 'buffer definition outside any rank test not understood: %s' % desc[:160])
+            return 0
+    if side == 'owner':
+        vv = classify(val, send, {data, widx, owner})
+        ok = _decide(ck, vv, rule, mod, site, F, desc, 'the rank that fills the buffer with data[world_index] is the broadcast root',
+                     'on the owner (`mpi.rank() == %s`) the frame sent must be %s[%s] (or its .xyz)' % (owner, data, widx))
+    else:
+        vv = classify(val, recv, {data, widx, owner})
+        ok = _decide(ck, vv, rule, mod, site, F, desc, 'the other ranks allocate a receive buffer of the shape of one frame',
+                     'on the non-owner ranks the buffer must be a fresh receive buffer shaped like one frame (np.empty_like(%s[0]))' % data)
+    if ok and xyz:
+        ck.check(('.xyz' in u(val)) == xyz[-1], rule, mod, site, F, 'trajectory/array arm: ' + desc, 'coordinates (.xyz) are sent/received exactly for trajectories',
+                 'the %s arm must %suse the .xyz coordinates: sender and receivers otherwise disagree on the buffer shape' % (
+                     'trajectory' if xyz[-1] else 'array', '' if xyz[-1] else 'not '))
+    return 1 if side == 'owner' else 0
 
 
 def _d2_distribute(ck, rule, mod, fn, fi, F):
@@ -696,63 +1197,14 @@ def _d2_distribute(ck, rule, mod, fn, fi, F):
         if v is None:
             ck.missing(rule, 'definition of the broadcast buffer not understood: %s' % u(site)[:100])
             continue
-        n_fill += 1
-        atoms = path_atoms(fi, site)
-        side = None
-        other = None
-        for c, own in atoms:
-            if not isinstance(c, Cmp):
-                continue
-            l, r = xt(fi, c.lhs, own), xt(fi, c.rhs, own)
-            if 'mpi.rank()' not in (l, r):
-                continue
-            o = c.rhs if l == 'mpi.rank()' else c.lhs
-            other = (o, own, c)
-            if xt(fi, o, own) == owner and is_param(owner, own):
-                side = {'==': 'owner', '!=': 'receiver'}.get(c.rel, 'unknown')
-            else:
-                side = 'foreign'
-        xyz = [pol for c, own in atoms if isinstance(c, tuple) and c[0] == 'expr' and u(c[1]) in ("hasattr(%s, 'xyz')" % data,) for pol in [c[2]]]
-        val = xn(fi, v, site)
-        desc = '%s  [when %s]' % (u(site), ' and '.join(repr(c) if isinstance(c, Cmp) else ('' if c[2] else 'not ') + u(c[1]) for c, _ in atoms) or 'always')
-        send = ['%s[%s]' % (data, widx), '%s[%s].xyz' % (data, widx), '%s[%s].copy()' % (data, widx), '%s[%s].xyz.copy()' % (data, widx),
-                'np.ascontiguousarray(%s[%s])' % (data, widx), 'np.ascontiguousarray(%s[%s].xyz)' % (data, widx)]
-        recv = [f.replace('D', data) for f in (
-            'np.empty_like(D[0])', 'np.empty_like(D[0].xyz)', 'np.zeros_like(D[0])', 'np.zeros_like(D[0].xyz)',
-            'np.empty(D[0].shape, dtype=D.dtype)', 'np.empty(D.shape[1:], dtype=D.dtype)', 'np.empty(D[0].xyz.shape, dtype=D[0].xyz.dtype)')]
-        is_alloc = isinstance(val, ast.Call) and (call_name(val) or '') in ('np.empty_like', 'np.zeros_like', 'np.empty', 'np.zeros')
-        if side == 'foreign':
-            o, own, c = other
-            v2 = ('near', 1, 'mpi.rank() == %s' % owner) if closed_over(xn(fi, o, own), {data, widx, owner}) else ('far', 1, None)
-            _decide(ck, v2, rule, mod, site, F, desc, '', 'the buffer is filled under the rank test `%r`, but the Bcast root is `%s`: '
-                    'the rank that fills the buffer must be the broadcast root' % (c, owner))
-            continue
-        if side == 'unknown':
-            ck.missing(rule, 'rank test of a buffer fill not understood: %s' % desc[:160])
-            continue
-        if side is None:
-            if is_alloc:
-                side = 'receiver'       # default receive buffer, overwritten on the owner
-            elif _classify(val, send[:2])[0] == 'match':
-                ck.bad(rule, mod, site, F, desc, 'the buffer is bound to %s[%s] on EVERY rank (no `mpi.rank() == %s` guard): non-owner ranks index their own data '
-                       'with the owner\'s position and the Bcast then overwrites their local frame in place' % (data, widx, owner))
-                continue
-            else:
-                ck.missing(rule, 'buffer definition outside any rank test not understood: %s' % desc[:160])
-                continue
-        if side == 'owner':
-            n_owner += 1
-            vv = classify(val, send, {data, widx, owner})
-            ok = _decide(ck, vv, rule, mod, site, F, desc, 'the rank that fills the buffer with data[world_index] is the broadcast root',
-                         'on the owner (`mpi.rank() == %s`) the frame sent must be %s[%s] (or its .xyz)' % (owner, data, widx))
-        else:
-            vv = classify(val, recv, {data, widx, owner})
-            ok = _decide(ck, vv, rule, mod, site, F, desc, 'the other ranks allocate a receive buffer of the shape of one frame',
-                         'on the non-owner ranks the buffer must be a fresh receive buffer shaped like one frame (np.empty_like(%s[0]))' % data)
-        if ok and xyz:
-            ck.check(('.xyz' in u(val)) == xyz[-1], rule, mod, site, F, 'trajectory/array arm: ' + desc, 'coordinates (.xyz) are sent/received exactly for trajectories',
-                     'the %s arm must %suse the .xyz coordinates: sender and receivers otherwise disagree on the buffer shape' % (
-                         'trajectory' if xyz[-1] else 'array', '' if xyz[-1] else 'not '))
+        # a conditional expression in the value is a branch: one fill per arm,
+        # the tests of the arm added to the path condition
+        for conds, val in ifexp_arms(xn(fi, v, site)):
+            n_fill += 1
+            atoms = path_atoms(fi, site)
+            for t, pol in conds:
+                atoms += [(c, site) for c in (conjuncts(t, pol) or [])]
+            n_owner += _d2_fill(ck, rule, mod, fi, F, site, val, atoms, bool(conds), data, widx, owner, is_param)
     ck.floor(rule, n_fill, 2, 'definitions of the broadcast buffer reaching the Bcast in distribute_frame')
     if n_fill and not n_owner:
         ck.missing(rule, 'no fill of the broadcast buffer under `mpi.rank() == %s` found' % owner)
@@ -1301,6 +1753,12 @@ def _d4_distribute_sites(ck, rule):
                     src = 'unpacked pair'
                     if io is None:
                         uo, uw = unpack_source(fi, o.id, here), unpack_source(fi, w.id, here)
+                        is_randind = uo is not None and isinstance(uo[0], ast.Call) and (call_name(uo[0]) or '').split('.')[-1] == 'randind'
+                        if uo is not None and uw is not None and uo[2] is uw[2] and isinstance(uo[0], ast.Call) and not is_randind:
+                            # the two results of some other function (an extracted helper):
+                            # the order of ITS result tuple is its own business, not a pair
+                            ck.ok(rule + '.consumers', mod, c, u(c), 'owner and index are two results of %s, not the components of a stored pair' % u(uo[0].func))
+                            continue
                         if uo is not None and uw is not None and uo[2] is uw[2]:
                             io, iw, src = uo[1], uw[1], 'components of ' + u(uo[0])[:60]
                         elif uo is not None and isinstance(uo[0], ast.Call) and (call_name(uo[0]) or '').split('.')[-1] == 'randind':
